@@ -52,6 +52,10 @@ type c03Case struct {
 	// (The body stream's Read is not used as a second call-out point: under CompressHandler it runs on a goroutine of
 	// its own, and the harness stays single-threaded.)
 	Intr string `json:",omitempty"`
+	// Shift: body streams / stream writers yield c03Pattern[Shift:Shift+L]. 0 in every enumerated case; the concurrent
+	// pool users have their own, so that their payload differs from the payload of the connection under test at every
+	// offset of a shared buffer (the pattern has period 36).
+	Shift int `json:",omitempty"`
 }
 
 func (c c03Case) key() string { b, _ := json.Marshal(c); return string(b) }
@@ -105,9 +109,9 @@ func (r *c03Reader) Read(p []byte) (int, error) {
 
 func c03MakeReader(c *c03Case) io.Reader {
 	if c.RK == "bytes" {
-		return bytes.NewReader(c03Pattern[:c.L])
+		return bytes.NewReader(c03Pattern[c.Shift : c.Shift+c.L])
 	}
-	return &c03Reader{data: c03Pattern[:c.L]}
+	return &c03Reader{data: c03Pattern[c.Shift : c.Shift+c.L]}
 }
 
 // ---------------------------------------------------------------------------------------------------------------
@@ -235,8 +239,8 @@ var c03Ops = []c03Op{
 	{"stream-short", func(ctx *RequestCtx, c *c03Case) { ctx.Response.SetBodyStream(c03MakeReader(c), c03Short(c.L)) }, func(m *c03Model, c *c03Case) { m.stream(c, c03Short(c.L)) }},
 	{"stream-long", func(ctx *RequestCtx, c *c03Case) { ctx.Response.SetBodyStream(c03MakeReader(c), c03LongDeclared) }, func(m *c03Model, c *c03Case) { m.stream(c, c03LongDeclared) }},
 	{"stream-chunked", func(ctx *RequestCtx, c *c03Case) { ctx.Response.SetBodyStream(c03MakeReader(c), -1) }, func(m *c03Model, c *c03Case) { m.stream(c, -1) }},
-	{"writer-1", func(ctx *RequestCtx, c *c03Case) { ctx.Response.SetBodyStreamWriter(c03Writer(c.L, 1)) }, func(m *c03Model, c *c03Case) { m.stream(c, -1); m.kind = 2 }},
-	{"writer-3", func(ctx *RequestCtx, c *c03Case) { ctx.Response.SetBodyStreamWriter(c03Writer(c.L, 3)) }, func(m *c03Model, c *c03Case) { m.stream(c, -1); m.kind = 2 }},
+	{"writer-1", func(ctx *RequestCtx, c *c03Case) { ctx.Response.SetBodyStreamWriter(c03Writer(c.L, 1, c.Shift)) }, func(m *c03Model, c *c03Case) { m.stream(c, -1); m.kind = 2 }},
+	{"writer-3", func(ctx *RequestCtx, c *c03Case) { ctx.Response.SetBodyStreamWriter(c03Writer(c.L, 3, c.Shift)) }, func(m *c03Model, c *c03Case) { m.stream(c, -1); m.kind = 2 }},
 	{"skipbody", func(ctx *RequestCtx, _ *c03Case) { ctx.Response.SkipBody = true }, func(m *c03Model, _ *c03Case) { m.skip = true }},
 	{"trailer", func(ctx *RequestCtx, _ *c03Case) {
 		ctx.Response.Header.SetTrailer("X-T") //nolint:errcheck
@@ -276,11 +280,11 @@ func c03IsStreamOp(name string) bool {
 }
 
 // c03Writer writes L pattern bytes in n pieces, flushing after each.
-func c03Writer(L, n int) StreamWriter {
+func c03Writer(L, n, shift int) StreamWriter {
 	return func(w *bufio.Writer) {
 		for i := 0; i < n; i++ {
 			lo, hi := L*i/n, L*(i+1)/n
-			if _, err := w.Write(c03Pattern[lo:hi]); err != nil {
+			if _, err := w.Write(c03Pattern[shift+lo : shift+hi]); err != nil {
 				return
 			}
 			if err := w.Flush(); err != nil {
@@ -432,10 +436,10 @@ func (c *c03HookConn) Write(p []byte) (int, error) {
 // answered with Connection: close), judged by the same oracle. The two chunked ones use stream sizes whose hex digits differ from each other in every
 // position, so whichever digits somebody else's scratch buffer holds, at least one of them changes them.
 var c03Intruders = map[string]c03Case{
-	"chunked-abc": {P1: []string{"stream-chunked", "trailer", "hand-close"}, P2: []string{"body-set"}, M1: "GET", M2: "GET", V1: "1.1", V2: "1.1", L: 0xabc, RK: "plain"},
-	"chunked-543": {P1: []string{"cookie-a", "stream-chunked", "hand-close"}, P2: []string{"body-set"}, M1: "POST", M2: "GET", V1: "1.1", V2: "1.1", L: 0x543, RK: "bytes"},
+	"chunked-abc": {P1: []string{"stream-chunked", "trailer", "hand-close"}, P2: []string{"body-set"}, M1: "GET", M2: "GET", V1: "1.1", V2: "1.1", L: 0xabc, RK: "plain", Shift: 17},
+	"chunked-543": {P1: []string{"cookie-a", "stream-chunked", "hand-close"}, P2: []string{"body-set"}, M1: "POST", M2: "GET", V1: "1.1", V2: "1.1", L: 0x543, RK: "bytes", Shift: 29},
 	"mixed": {P1: []string{"status-404", "cookie-b", "body-set-long", "hand-close"}, P2: []string{"body-set"}, M1: "GET", M2: "GET", V1: "1.1", V2: "1.1",
-		L: 300, RK: "plain", Gzip: true},
+		L: 300, RK: "plain", Gzip: true, Shift: 7},
 }
 
 var c03IntruderNames = []string{"chunked-abc", "chunked-543", "mixed"}
@@ -852,7 +856,7 @@ func c03Oracle(c *c03Case, run *c03Run, res *c03Result) {
 		var wantBody []byte
 		if sendBody {
 			if isStream {
-				wantBody = c03Pattern[:m.yield]
+				wantBody = c03Pattern[c.Shift : c.Shift+m.yield]
 			} else {
 				wantBody = m.body
 			}
@@ -942,7 +946,7 @@ func c03OracleMismatch(c *c03Case, run *c03Run, k int, m *c03Model, out []byte, 
 			add("mismatched-stream-"+kind+"-exceeds-declared-size", "response %d: stream declared %d bytes, yields %d; %d body bytes reached the wire",
 				k+1, m.declared, m.yield, bodyBytes)
 		}
-		if !bytes.HasPrefix(c03Pattern[:m.yield], rest[i+4:]) && bodyBytes <= m.yield {
+		if !bytes.HasPrefix(c03Pattern[c.Shift:c.Shift+m.yield], rest[i+4:]) && bodyBytes <= m.yield {
 			add("mismatched-stream-body-not-a-prefix", "response %d: body bytes on the wire are not a prefix of what the stream produced", k+1)
 		}
 	}
@@ -1468,8 +1472,17 @@ func TestVerif_C03(t *testing.T) {
 		rel bool
 		v   int
 	}
-	bufSpecs := []bufSpec{{false, 1}, {false, 2}, {false, 3}, {false, 4}, {false, 5}, {false, 7}, {false, 64},
-		{true, 0}, {true, 1}, {true, 2}, {true, 3}, {true, 4}, {true, 5}, {true, 6}}
+	bufSpecs := []bufSpec{{false, 1}, {false, 2}, {false, 3}, {false, 5}, {false, 64},
+		{true, 0}, {true, 1}, {true, 2}, {true, 3}, {true, 4}, {true, 5}}
+	if r.Thorough() {
+		bufSpecs = append(bufSpecs, bufSpec{false, 4}, bufSpec{false, 7}, bufSpec{true, 6}, bufSpec{true, 7})
+	}
+	bufNames := make([]string, len(bufSpecs))
+	for i, b := range bufSpecs {
+		if bufNames[i] = fmt.Sprint(b.v); b.rel {
+			bufNames[i] = fmt.Sprintf("header+%d", b.v)
+		}
+	}
 	names := make([]string, len(c03Ops))
 	for i, o := range c03Ops {
 		names[i] = o.name
@@ -1481,13 +1494,13 @@ func TestVerif_C03(t *testing.T) {
 		"(status, handler-set fields as multisets, body, boundaries, mismatch clause); non-trivial: the (program, environment) produced a response whose framing class "+
 		"(bodyless / chunked / gzip / closing / stream mismatch) is not the canonical fixed-length keep-alive one. "+
 		"PART 2 (re-entrant cases: the connection is not alone on the Server): every program of at most %d calls, as answer to request 1 / request 2 / both, x WriteBufferSize in "+
-		"{1,2,3,4,5,7,64 bytes; header block of the response under test + 0..6 bytes, i.e. the write buffer runs full at every byte position of the first chunk-size line / first body bytes} "+
+		"%v bytes (header+d: the length of the header block of the response under test plus d, i.e. the write buffer runs full - and is flushed - at every byte position of the first chunk-size line / first body bytes) "+
 		"x concurrent pool user in %v (a complete connection of its own on the same Server: chunked streams of 0xabc / 0x543 bytes via io.Reader / *bytes.Reader, trailer, cookie; "+
 		"gzip-compressed 404 with cookie), which is served from start to end INSIDE EVERY Write call the server makes on the connection under test (before the written bytes are taken over: a slow peer), "+
 		"so every object the response writer has returned to a pool too early, or shares, is taken and overwritten by somebody else at every point where the writer calls out; "+
 		"programs shorter than %d calls additionally with one of {method1, method2, version1, version2, gzip, pipelined, L, reader flavour} off canonical; "+
 		"oracle: the same reference comparison for the connection under test, and the concurrent connection's responses must be what they are when it is served alone "+
-		"(byte comparison with Date masked, full oracle on any difference)", maxOps, len(c03Ops), names, envDev, maxOps2, c03IntruderNames, maxOps2))
+		"(byte comparison with Date masked, full oracle on any difference)", maxOps, len(c03Ops), names, envDev, maxOps2, bufNames, c03IntruderNames, maxOps2))
 	r.Assume("net/http.ReadResponse and the harness's own RFC 9112 splitter as independent HTTP/1.1 parsers (they must agree on every response)",
 		"Response.SkipBody is read as documented ('use it for writing HEAD responses'): a response built with it is parsed like a response to HEAD",
 		"automatic fields (Date, Server, Content-Type default, Content-Length, Transfer-Encoding, Connection, Content-Encoding, Vary, Trailer) are outside the header comparison; trailer fields are compared only on chunked responses",
@@ -1681,14 +1694,15 @@ func TestVerif_C03(t *testing.T) {
 	})
 	r.Set("reentrant_programs", len(progs2))
 	r.Set("reentrant_environments", len(envs2)*len(place)*len(bufSpecs)*len(c03IntruderNames))
-	nblocks2 := (len(progs2) + block - 1) / block
+	const block2 = 4 // short programs come first and carry many more cases each: small units keep the workers balanced
+	nblocks2 := (len(progs2) + block2 - 1) / block2
 	r.Par(nblocks2, func(bi int) {
 		if stopped() || rp.toolErr() != "" {
 			return
 		}
 		ss := &c03Servers{}
 		var k counters
-		for pi := bi * block; pi < (bi+1)*block && pi < len(progs2); pi++ {
+		for pi := bi * block2; pi < (bi+1)*block2 && pi < len(progs2); pi++ {
 			prog, hasStream := progNames(progs2[pi])
 			for _, e := range envs2 {
 				x := e.idx
@@ -1712,7 +1726,7 @@ func TestVerif_C03(t *testing.T) {
 									c.BufRel = 2
 								}
 							}
-							runCase(ss, c, &k, pi%211 == 0 && e.dev == 0 && wi == 0 && ii == 0 && (si == 0 || si == len(bufSpecs)-5))
+							runCase(ss, c, &k, pi%211 == 0 && e.dev == 0 && wi == 0 && ii == 0 && (si == 0 || bs.rel && bs.v == 1))
 						}
 					}
 				}
